@@ -83,8 +83,90 @@ func runC18(c *Case, out func(string)) {
 		return s
 	}
 	ties := 0
+	// a held iterator (hnew .. hdrain): created at one point, advanced while the writer goes on
+	var held *memtable.Iterator
+	heldLog := 0         // len(log) when the iterator was created
+	var heldFrom []byte  // target of the last positioning (nil: SeekToFirst)
+	heldPos := false     // positioned since creation
+	var yield []string   // what it stood on since the last positioning
+	var yieldV []mver
+	heldSteps := 0
+	cur := func() {
+		if !held.Valid() {
+			out("H invalid")
+			return
+		}
+		g := verStr(held.Key(), held.SequenceNumber(), held.IsTombstone(), held.Value())
+		out("H " + g)
+		yield = append(yield, g)
+		yieldV = append(yieldV, mver{k: append([]byte{}, held.Key()...), seq: held.SequenceNumber()})
+	}
+	// the held iterator ran to its end: it must have shown, in order, at least every entry that
+	// was in the table when it was created and lies at or after the point it was positioned on
+	heldCheck := func() {
+		for i := 1; i < len(yieldV); i++ {
+			c := bytes.Compare(yieldV[i-1].k, yieldV[i].k)
+			if c > 0 || (c == 0 && yieldV[i-1].seq <= yieldV[i].seq) {
+				fail(fmt.Sprintf("held iterator went from %s to %s (key asc, seq desc expected)", yield[i-1], yield[i]))
+			}
+		}
+		seen := map[string]bool{}
+		for _, g := range yield {
+			seen[g] = true
+		}
+		for _, e := range log[:heldLog] {
+			if heldFrom != nil && bytes.Compare(e.k, heldFrom) < 0 {
+				continue
+			}
+			if !seen[verStr(e.k, e.seq, e.del, e.v)] {
+				fail("an iterator advanced while the writer went on ended without showing " + verStr(e.k, e.seq, e.del, e.v) + ", which was inserted before the iterator was created")
+				break
+			}
+		}
+		all := map[string]bool{}
+		for _, e := range log {
+			all[verStr(e.k, e.seq, e.del, e.v)] = true
+		}
+		for _, g := range yield {
+			if !all[g] {
+				fail("held iterator showed " + g + ", which was never inserted")
+			}
+		}
+	}
 	for _, l := range c.Lines {
 		switch l[0] {
+		case "hnew":
+			held = mt.NewIterator()
+			heldLog, heldPos, yield, yieldV = len(log), false, nil, nil
+		case "hfirst":
+			held.SeekToFirst()
+			heldFrom, heldPos, yield, yieldV = nil, true, nil, nil
+			cur()
+		case "hseek":
+			t := tok(l[1])
+			held.Seek(t)
+			heldFrom, heldPos, yield, yieldV = t, true, nil, nil
+			cur()
+		case "hnext":
+			if held.Valid() {
+				held.Next()
+				heldSteps++
+				cur()
+				if !held.Valid() && heldPos {
+					heldCheck()
+				}
+			} else {
+				out("H invalid")
+			}
+		case "hdrain":
+			for n := 0; held.Valid() && n < 100000; n++ {
+				held.Next()
+				heldSteps++
+				cur()
+			}
+			if heldPos {
+				heldCheck()
+			}
 		case "put":
 			k, v, s := tok(l[1]), tok(l[2]), parseNum(l[3])
 			mt.Put(k, v, s)
@@ -194,7 +276,7 @@ func runC18(c *Case, out func(string)) {
 	if multi > 0 && len(log) >= 3 {
 		nt = 1
 	}
-	out(fmt.Sprintf("META inserts=%d keys=%d multiversion_keys=%d seq_ties=%d nontrivial=%d", len(log), len(keys), multi, ties, nt))
+	out(fmt.Sprintf("META inserts=%d keys=%d multiversion_keys=%d seq_ties=%d held_steps=%d nontrivial=%d", len(log), len(keys), multi, ties, heldSteps, nt))
 }
 
 // Concurrent part: one writer inserts the case's entries in order; reader goroutines run Get /
@@ -420,11 +502,75 @@ func runC18Sentinel(c *Case, out func(string)) {
 	out(fmt.Sprintf("META conc_inserts=%d sentinel_seeks=%d nontrivial=1", n, seeks))
 }
 
+// a reader holds one iterator while the single writer goes on: entries are written before the
+// iterator is created, then writes (runs of adjacent newer entries ahead of and behind the
+// reader: a key overwritten several times, new neighbouring keys, deletes) alternate with steps
+func genC18Held(w *bufio.Writer, r *rand.Rand, id string) {
+	fmt.Fprintf(w, "case %s kind=held\n", id)
+	seq := uint64(0)
+	key := func(i int) string { return mkTok([]byte(fmt.Sprintf("k%02d", i))) }
+	put := func(i int) {
+		seq++
+		if r.Intn(6) == 0 {
+			fmt.Fprintf(w, "del %s %s\n", key(i), num(seq))
+		} else {
+			fmt.Fprintf(w, "put %s %s %s\n", key(i), genVal(r), num(seq))
+		}
+	}
+	nk := 6 + r.Intn(10)
+	if r.Intn(8) > 0 { // sometimes the iterator is created on an empty table (no snapshot filter)
+		for i := 0; i < nk; i++ {
+			if r.Intn(5) > 0 {
+				put(2 * i)
+			}
+		}
+	}
+	if r.Intn(10) == 0 {
+		fmt.Fprintf(w, "imm\n")
+	}
+	fmt.Fprintf(w, "hnew\n")
+	if r.Intn(3) == 0 {
+		put(2 * r.Intn(nk))
+	}
+	if r.Intn(3) == 0 {
+		fmt.Fprintf(w, "hseek %s\n", key(r.Intn(2*nk)))
+	} else {
+		fmt.Fprintf(w, "hfirst\n")
+	}
+	for st := 0; st < 2*nk; st++ {
+		switch r.Intn(4) {
+		case 0: // one key overwritten several times: adjacent newer versions
+			k := r.Intn(2 * nk)
+			for n := 2 + r.Intn(3); n > 0; n-- {
+				put(k)
+			}
+		case 1: // new neighbouring keys
+			k := r.Intn(2*nk - 3)
+			for n := 0; n < 2+r.Intn(2); n++ {
+				put(k + n)
+			}
+		case 2:
+			put(r.Intn(2 * nk))
+		}
+		if r.Intn(3) > 0 {
+			fmt.Fprintf(w, "hnext\n")
+		}
+		if r.Intn(25) == 0 {
+			fmt.Fprintf(w, "hseek %s\n", key(r.Intn(2*nk)))
+		}
+	}
+	fmt.Fprintf(w, "hdrain\niter\nend\n")
+}
+
 func genC18(w *bufio.Writer, seed int64, n int, tier string) {
 	r := rand.New(rand.NewSource(seed*6151 + 18))
 	for ci := 0; ci < n; ci++ {
 		if ci%20 == 19 {
 			fmt.Fprintf(w, "case c18-%d-%d mode=sentinel n=%d dir=%s\nend\n", seed, ci, 30000+r.Intn(20000), []string{"up", "up", "up", "down"}[r.Intn(4)])
+			continue
+		}
+		if ci%10 == 4 {
+			genC18Held(w, r, fmt.Sprintf("c18-%d-%d", seed, ci))
 			continue
 		}
 		conc := ci%10 == 9
